@@ -365,8 +365,15 @@ def main(argv=None):
         evaluations=max(1, n_obl + b_eval), distinct_nontrivial=max(2, n_dis + b_dist),
         rule='deductive part: one evaluation = one verification condition discharged by z3 (non-trivial = not closed by constant folding); bounded part: see bounded.harnesses',
     )
+    assumed_used = sorted({x for r in cres for x in r.get('assumed_used', [])})
+    module_docs = {}
+    for r in cres:
+        if r.get('module_doc'):
+            module_docs[r['contract_module']] = r['module_doc']
+    extra = ['ASSUMED contract used at call sites (never verified here): ' + x for x in assumed_used] + \
+            [f'environment / ghost model of {m}: {d}' for m, d in sorted(module_docs.items())]
     ev = dict(property_id=prop, tier=a.tier if a.tier in ('quick', 'thorough') else 'quick', seed=seed, level=cfg['level'],
-              coverage=coverage, assumptions=ASSUMPTIONS_COMMON + cfg.get('assumptions', []), wall_s=round(wall, 2),
+              coverage=coverage, assumptions=ASSUMPTIONS_COMMON + cfg.get('assumptions', []) + extra, wall_s=round(wall, 2),
               violations=violations)
     os.makedirs(os.path.join(ROOT, 'evidence'), exist_ok=True)
     with open(os.path.join(ROOT, 'evidence', f'{prop}.json'), 'w') as f:
